@@ -1315,10 +1315,10 @@ def Above (g : Option Int) (st : State α) : Prop :=
 theorem above_init (g : Option Int) : Above g (State.init : State α) := by
   intro s hs; simp [State.init] at hs
 
-/-- steps other than a watermark keep `Above g`, provided an arriving element is later than `g` -/
+/-- steps other than a watermark keep `Above g`, provided an arriving element is not earlier than `g` -/
 theorem above_process (c : Cfg) (hS : 0 < c.slide) (Q : α × Int → Prop) (g : Option Int) (st : State α)
     (e : Elem α) (inv : Inv c Q st) (ha : Above g st)
-    (hts : ∀ x t, e = .ts x t → ∀ w, g = some w → w < t) (hwm : ∀ w, e ≠ .wm w) :
+    (hts : ∀ x t, e = .ts x t → ∀ w, g = some w → w ≤ t) (hwm : ∀ w, e ≠ .wm w) :
     Above g (process c st e).1 := by
   cases e with
   | ts x t =>
@@ -1395,9 +1395,9 @@ theorem toElem_good (g : Option Int) (k : κ) (r : Res α)
   obtain ⟨stop, h1, h2⟩ := h
   exact ⟨(k, r.val), stop, by simp [WResult.toElem, h1], h2⟩
 
-theorem op_wmsafe [DecidableEq κ] (c : Cfg) (hS : 0 < c.slide) :
+theorem op_wmsafe_lax [DecidableEq κ] (c : Cfg) (hS : 0 < c.slide) :
     ∀ (es : List (Elem (κ × α))) (g : Option Int) (st : WindowOp.State κ (State α)),
-      OpAbove c g st → wmSafeGo g es = true →
+      OpAbove c g st → wmSafeLaxGo g es = true →
       wmSafeGo g (WindowOp.runUnits (mgr c) st es).flatten = true := by
   intro es
   induction es with
@@ -1407,7 +1407,7 @@ theorem op_wmsafe [DecidableEq κ] (c : Cfg) (hS : 0 < c.slide) :
     simp only [WindowOp.runUnits, List.flatten_cons]
     -- data elements: no output, invariant kept
     have hdata : ∀ (k : κ) (e' : Elem α), (∀ w, e' ≠ .wm w) →
-        (∀ x t, e' = .ts x t → ∀ w, g = some w → w < t) →
+        (∀ x t, e' = .ts x t → ∀ w, g = some w → w ≤ t) →
         (∀ p ∈ (upsert (mgr c) k e' st.windows).1, Inv c (fun _ => True) p.2 ∧ Above g p.2) ∧
         (∀ r ∈ (upsert (mgr c) k e' st.windows).2.1, ∃ stop, r.ts = some stop ∧ ∀ w, g = some w → w < stop) := by
       intro k e' hnw hts
@@ -1436,11 +1436,11 @@ theorem op_wmsafe [DecidableEq κ] (c : Cfg) (hS : 0 < c.slide) :
         intro o ho
         obtain ⟨r, hr, rfl⟩ := List.mem_map.mp ho
         exact toElem_good g k r (h2 r hr))]
-      exact ih g _ h1 (by simpa [wmSafeGo] using hw)
+      exact ih g _ h1 (by simpa [wmSafeLaxGo] using hw)
     | ts p t =>
       obtain ⟨k, x⟩ := p
-      simp only [wmSafeGo, Bool.and_eq_true] at hw
-      have hgt : ∀ w, g = some w → w < t := by
+      simp only [wmSafeLaxGo, Bool.and_eq_true] at hw
+      have hgt : ∀ w, g = some w → w ≤ t := by
         intro w hg; rw [hg] at hw; simpa using hw.1
       obtain ⟨h1, h2⟩ := hdata k (.ts x t) (fun w h => by cases h)
         (fun x' t' h => by injection h with _ ht; subst ht; exact hgt)
@@ -1453,9 +1453,9 @@ theorem op_wmsafe [DecidableEq κ] (c : Cfg) (hS : 0 < c.slide) :
     | flushBatch =>
       simp only [WindowOp.step, List.singleton_append]
       show wmSafeGo g (WindowOp.runUnits (mgr c) st es).flatten = true
-      exact ih g st hI (by simpa [wmSafeGo] using hw)
+      exact ih g st hI (by simpa [wmSafeLaxGo] using hw)
     | wm w =>
-      simp only [wmSafeGo, Bool.and_eq_true] at hw
+      simp only [wmSafeLaxGo, Bool.and_eq_true] at hw
       simp only [WindowOp.step, List.append_assoc, List.singleton_append]
       rw [wmSafeGo_skip g _ _ (hctrl (.wm w))]
       simp only [wmSafeGo, Bool.and_eq_true]
@@ -1468,7 +1468,7 @@ theorem op_wmsafe [DecidableEq κ] (c : Cfg) (hS : 0 < c.slide) :
       simp only [WindowOp.step, List.append_assoc, List.singleton_append]
       rw [wmSafeGo_skip g _ _ (hctrl .term)]
       show wmSafeGo g (WindowOp.runUnits (mgr c) _ es).flatten = true
-      apply ih g _ _ (by simpa [wmSafeGo] using hw)
+      apply ih g _ _ (by simpa [wmSafeLaxGo] using hw)
       intro p hp
       have : (broadcast (mgr c) .term st.windows).1 = [] :=
         broadcast_all_recycled (mgr c) .term (fun s => by simp [mgr, process, recycle]) st.windows
@@ -1477,10 +1477,117 @@ theorem op_wmsafe [DecidableEq κ] (c : Cfg) (hS : 0 < c.slide) :
       simp only [WindowOp.step, List.append_assoc, List.singleton_append]
       rw [wmSafeGo_skip g _ _ (hctrl .far)]
       show wmSafeGo none (WindowOp.runUnits (mgr c) _ es).flatten = true
-      apply ih none _ _ (by simpa [wmSafeGo] using hw)
+      apply ih none _ _ (by simpa [wmSafeLaxGo] using hw)
       intro p hp
       have : (broadcast (mgr c) .far st.windows).1 = [] :=
         broadcast_all_recycled (mgr c) .far (fun s => by simp [mgr, process, recycle]) st.windows
       simp [this] at hp
 
+
+theorem wmSafeLax_of_wmSafe {β : Type} : ∀ (es : List (Elem β)) (g : Option Int),
+    wmSafeGo g es = true → wmSafeLaxGo g es = true := by
+  intro es
+  induction es with
+  | nil => intros; rfl
+  | cons e es ih =>
+    intro g h
+    cases e with
+    | ts x t =>
+      simp only [wmSafeGo, wmSafeLaxGo, Bool.and_eq_true] at h ⊢
+      refine ⟨?_, ih g h.2⟩
+      cases g with
+      | none => rfl
+      | some w => have := h.1; simp at this ⊢; omega
+    | wm w =>
+      simp only [wmSafeGo, wmSafeLaxGo, Bool.and_eq_true] at h ⊢
+      exact ⟨h.1, ih _ h.2⟩
+    | far => simpa [wmSafeGo, wmSafeLaxGo] using ih none (by simpa [wmSafeGo] using h)
+    | term => simpa [wmSafeGo, wmSafeLaxGo] using ih g (by simpa [wmSafeGo] using h)
+    | item y => simpa [wmSafeGo, wmSafeLaxGo] using ih g (by simpa [wmSafeGo] using h)
+    | flushBatch => simpa [wmSafeGo, wmSafeLaxGo] using ih g (by simpa [wmSafeGo] using h)
+
+theorem op_wmsafe [DecidableEq κ] (c : Cfg) (hS : 0 < c.slide) :
+    ∀ (es : List (Elem (κ × α))) (g : Option Int) (st : WindowOp.State κ (State α)),
+      OpAbove c g st → wmSafeGo g es = true →
+      wmSafeGo g (WindowOp.runUnits (mgr c) st es).flatten = true :=
+  fun es g st h hw => op_wmsafe_lax c hS es g st h (wmSafeLax_of_wmSafe es g hw)
+
 end Noir.EventTimeWindow
+
+/-! ## Locating results of a run; transaction-window run lemmas -/
+namespace Noir.EventTimeWindow
+
+variable {α : Type}
+
+/-- what the `j`-th element of a run emits is in the run's output, tagged with its index -/
+theorem mem_runFrom_of_step (c : Cfg) : ∀ (es : List (Elem α)) (st : State α) (i0 j : Nat) (e : Elem α) (r : Res α),
+    es[j]? = some e → r ∈ (process c (stateAfter c st (es.take j)) e).2 → (i0 + j, r) ∈ runFrom c st i0 es := by
+  intro es
+  induction es with
+  | nil => intro st i0 j e r h; simp at h
+  | cons e0 es ih =>
+    intro st i0 j e r h hr
+    cases j with
+    | zero =>
+      simp at h; subst h
+      simp only [List.take_zero, stateAfter] at hr
+      simp only [runFrom, List.mem_append, List.mem_map]
+      left; exact ⟨r, hr, rfl⟩
+    | succ j =>
+      simp only [List.getElem?_cons_succ] at h
+      simp only [List.take_succ_cons, stateAfter] at hr
+      simp only [runFrom, List.mem_append]
+      right
+      have := ih (process c st e0).1 (i0 + 1) j e r h hr
+      have hidx : i0 + 1 + j = i0 + (j + 1) := by omega
+      rw [hidx] at this; exact this
+
+theorem stateAfter_take_succ (c : Cfg) : ∀ (es : List (Elem α)) (st : State α) (j : Nat) (e : Elem α),
+    es[j]? = some e → stateAfter c st (es.take (j + 1)) = (process c (stateAfter c st (es.take j)) e).1 := by
+  intro es
+  induction es with
+  | nil => intro st j e h; simp at h
+  | cons e0 es ih =>
+    intro st j e h
+    cases j with
+    | zero => simp at h; subst h; simp [stateAfter]
+    | succ j =>
+      simp only [List.getElem?_cons_succ] at h
+      simp only [List.take_succ_cons, stateAfter]
+      exact ih _ j e h
+
+end Noir.EventTimeWindow
+
+namespace Noir.TransactionWindow
+
+variable {α : Type}
+
+/-- watermarks that have not passed the registered deadline do nothing -/
+theorem run_wms_before (f : α → TxOp) (items : List α) (d : Int) : ∀ (ws : List Int) (i : Nat) (rest : List (Elem α)),
+    (∀ v ∈ ws, v ≤ d) →
+    runFrom f (some ⟨items, some d⟩) i (ws.map (fun v => Elem.wm v) ++ rest) =
+      runFrom f (some ⟨items, some d⟩) (i + ws.length) rest := by
+  intro ws
+  induction ws with
+  | nil => intros; simp
+  | cons v ws ih =>
+    intro i rest h
+    have hv : ¬ d < v := by have := h v (by simp); omega
+    simp only [List.map_cons, List.cons_append, runFrom, process, hv, if_false, List.map_nil, List.nil_append]
+    rw [ih _ _ (fun u hu => h u (by simp [hu]))]
+    simp only [List.length_cons]
+    congr 1; omega
+
+/-- all results of a run, without the indices -/
+def results (f : α → TxOp) : State α → List (Elem α) → List (Res α)
+  | _, [] => []
+  | st, e :: es => (process f st e).2 ++ results f (process f st e).1 es
+
+theorem runFrom_results (f : α → TxOp) : ∀ (es : List (Elem α)) (st : State α) (i : Nat),
+    (runFrom f st i es).map (·.2) = results f st es := by
+  intro es
+  induction es with
+  | nil => intros; rfl
+  | cons e es ih => intro st i; simp [runFrom, results, ih, List.map_map, Function.comp_def]
+
+end Noir.TransactionWindow
